@@ -9,6 +9,12 @@ every single step (`stepLocal`): all programs, all guard outcomes, all flags —
 particular with and without `--force` / `--force-all` / `--yes` — and all interleavings.
 Tie: the `sched` correspondence replays the event log of the real executor through the same
 `replay`; `guardedNoCmd` is also evaluated directly on the implementation's event log.
+
+Which statements say what (audit, session 3).  `C13_early`, `C13_platform_skip_first`, `C13_guard_order`, `C13_precond`,
+`C13_prompt`, `C13_guardsPassed_disabled`, `C13_force_only_upToDate` are statements about ONE step (`freshAct`,
+`stepLocal`): they restate the guards of the acceptor, in the order `SchedTie.runTask_skeleton` pins for `RunTask`;
+that the real executor obeys them is the acceptance of its logs (a guarded task that ran a command, or a guard asked
+out of order, is a rejected log).  Trace-level: `C13_guarded_state`, `C13_no_cmd`, `C13_through_*`.
 -/
 namespace Props.C13
 open TaskModel.Sched.S7
